@@ -66,7 +66,9 @@ def expression_pool(model, tier):
 
 POINTS = [{}, {"x": 3}, {"x": 3.0}, {"x": 4}, {"y": 3}, {"x": 3, "y": 4.5}, {"y": 4.5, "x": 3},
           {"x": 3, "y": 4.5, "long_name_2": -1}, {"x": -2.5e-05}, {"x": 1234567.0}, {"x": 1234568.0}, {"x": 1e22},
-          {"x": 123456789.125}, {"x": 100000.0}, {"x": -0.0}, {"x": 1e-07}, {"t": 12345678}]
+          {"x": 123456789.125}, {"x": 100000.0}, {"x": -0.0}, {"x": 1e-07}, {"t": 12345678},
+          # floats whose shortest exact repr needs 16-17 significant digits, and tiny ones
+          {"x": 0.1 + 0.2}, {"x": 0.3}, {"x": 1 / 3, "y": 4}, {"x": 2.5e-17}, {"x": 2.0000000000000004, "y": 1e-300}]
 
 
 def tree_equal(a, b) -> bool:
@@ -86,6 +88,26 @@ def tree_equal(a, b) -> bool:
     if k in spec.UNARY:
         return tree_equal(a[1], b[1])
     return tree_equal(a[1], b[1]) and a[2] == b[2]
+
+
+_FOREIGN_CLASSES = {}
+
+
+def impostor(it, class_name: str, attrs: dict) -> Obj:
+    """An instance of a class that is NOT the package's but has the same __name__ (a caller's own
+    class, or e.g. ast.Add): no methods, default object equality, the given instance attributes."""
+    import ast as _ast
+    from .model import ClassInfo, ModuleInfo
+    ci = _FOREIGN_CLASSES.get(class_name)
+    if ci is None:
+        src = f"class {class_name}:\n    pass\n"
+        tree = _ast.parse(src)
+        mod = ModuleInfo(name="<foreign>", path="", rel="<foreign code>", tree=tree, source=src, is_package=False)
+        ci = _FOREIGN_CLASSES[class_name] = ClassInfo(name=class_name, node=tree.body[0], module=mod, base_exprs=[],
+                                                      foreign=True)
+    o = Obj(ci)
+    o.attrs.update(attrs)
+    return o
 
 
 def make_point_concrete(it, coords: dict) -> Obj:
